@@ -52,7 +52,7 @@ TView = TRec("MeritFuctionView", dict(merit_function=TMeritB, rescale_x=TTuple(T
 bounds_of = z3.Function("x_limits_of", V, V)
 GET_X_LIMITS = Contract(module=MO, qualname="MeritFunctionForMatch._get_x_limits", params=dict(self=TMeritB), result=TV, trusted=True,
                         ensures=[("the-bounds-array", lambda o, n, r: r.t == bounds_of(o.self.t))],
-                        note="opaque: the (n x 2) array of native bounds (a function of the merit function's vary list)")
+                        note="opaque VIEW used by the rescaled-view contracts: the (n x 2) array of native bounds as a function of the merit function; what that array IS -- row j = (lower_j / weight_j, upper_j / weight_j) -- is proved on the real body as variant `proved` (contracts/optimize.py, LimitsEngine)")
 CHECK_SCAL = Contract(module=MO, qualname="MeritFuctionView._check_for_scalability", params=dict(self=TView, bounds=TV), trusted=True,
                       raises={"UserError": dict(when=None, post=[], modifies=())},
                       note="may reject too large intervals (TypeError/ValueError); no effect otherwise")
@@ -125,6 +125,14 @@ TO_NATIVE = _view_contract("_scaled_to_native", True)
 FROM_NATIVE = _view_contract("_scaled_from_native", False)
 CONTRACTS += [GET_X_LIMITS, CHECK_SCAL, TO_NATIVE, FROM_NATIVE]
 
+# the "no effect otherwise" half of CHECK_SCAL, decided on the real body: it only READS self.rescale_x (no store to the view, no call on it,
+# the view not handed to anyone)
+from pyvc.writeset import WriteSetEngine      # noqa: E402
+CHECK_SCAL_FRAME = Contract(module=MO, qualname="MeritFuctionView._check_for_scalability", params={}, min_obligations=3,
+                            extra=dict(engine=WriteSetEngine, variant="reads-only", allowed_self_reads={"rescale_x"}),
+                            note="frame of the assumed contract: the view is only read (self.rescale_x)")
+VARIANTS = [CHECK_SCAL_FRAME]
+
 
 # ----------------------------------------------------------------------------- MeritFuctionView.get_jacobian: the chain-rule factor (block)   (C16)
 def _factor_post(o, n, r):
@@ -145,4 +153,4 @@ CHAIN_FACTOR = Contract(
                block=dict(inside=dict(first="if self.rescale_x:", nth=1, of=2), until="jac = jac_native.copy()")),
     note="block contract (pointwise over the knob axis): the factor each column of the native Jacobian is multiplied by is the slope of "
          "the affine map scaled -> native, whatever the normalised interval is, computed through the proved _scaled_to_native")
-VARIANTS = [CHAIN_FACTOR]
+VARIANTS += [CHAIN_FACTOR]
